@@ -162,7 +162,7 @@ Proof.
   destruct Hb2 as (hb2 & Hhb2 & Hfb2 & Hcb2 & _ & Hnb2).
   destruct (meta_step sb2 (HClose bh) bh hb2 nb eq_refl eq_refl Hhb2) as (Fb3 & Db3 & Ho3 & Hlen3 & Hlk3); [now rewrite Hfb2|].
   fold sb3 in Fb3, Db3, Ho3, Hlen3, Hlk3.
-  assert (Wb3 : WF sb3) by (apply WF_step; [exact Wb2 | reflexivity]).
+  assert (Wb3 : WF sb3) by (apply WF_step_ord; [exact Wb2 | reflexivity]).
   assert (Fb : Frame Some sb1 sb3).
   { eapply frame_comp_id; [|exact Fb3]. unfold fs_view in Hv. inversion Hv. now apply frame_view. }
   assert (Db : dkeep nobody sb1 sb3).
